@@ -269,3 +269,82 @@ Proof.
       * left. exists e. split; [right; exact Hie | exact Hde].
       * right. exact Hl.
 Qed.
+
+(* the deadline goroutine forwards exactly the relay's value records *)
+Lemma run_records r : forall calls last t b,
+  (exists e, In e (classify_run r last calls) /\ e_del e = DBid b /\ e_time e = t) <->
+  (exists c1 k c2, calls = c1 ++ (t, k, RBid b) :: c2 /\ eligible r b = true
+                   /\ (forall l, last = Some l -> b_value l < b_value b)
+                   /\ forall t' k' b', In (t', k', RBid b') c1 -> eligible r b' = true -> b_value b' < b_value b).
+Proof.
+  induction calls as [|[[t0 k0] x] rest IH]; intros last t b.
+  { split; [intros [e [[] _]] | intros (c1 & k & c2 & H & _)]. destruct c1; discriminate H. }
+  cbn [classify_run]. destruct (classify_deadline r last x) as [d last'] eqn:Ec.
+  (* either the head is an eligible bid, or it changes nothing *)
+  destruct (match x with RBid b0 => eligible r b0 | _ => false end) eqn:Ehead.
+  - destruct x as [| | | | |b0]; try discriminate Ehead.
+    rewrite (classify_deadline_eligible r last b0 Ehead) in Ec.
+    assert (Hfw : (d = DBid b0 /\ last' = Some b0 /\ (forall l, last = Some l -> b_value l < b_value b0))
+                  \/ (d = DSilent /\ last' = last /\ exists l, last = Some l /\ b_value b0 <= b_value l)).
+    { destruct last as [l0|].
+      - destruct (b_value l0 <? b_value b0) eqn:El; injection Ec as <- <-.
+        + left. repeat split. intros l Hl. injection Hl as <-. apply N.ltb_lt; exact El.
+        + right. repeat split. exists l0. split; [reflexivity | apply N.ltb_ge; exact El].
+      - injection Ec as <- <-. left. repeat split. intros l Hl. discriminate Hl. }
+    clear Ec. destruct Hfw as [(-> & -> & Hlast) | (-> & -> & l0 & Hl0 & Hle)].
+    + (* forwarded *)
+      split.
+      * intros [e [[<- | Hin] [Hd Ht]]].
+        -- cbn in Hd, Ht. injection Hd as <-. subst t0.
+           exists [], k0, rest. repeat split; try assumption. intros t' k' b' [].
+        -- destruct (proj1 (IH (Some b0) t b)) as (c1 & k & c2 & -> & He & Hl & Hc1).
+           { exists e. repeat split; assumption. }
+           specialize (Hl b0 eq_refl).
+           exists ((t0, k0, RBid b0) :: c1), k, c2. repeat split; try assumption.
+           ++ intros l Hl'. specialize (Hlast l Hl'). lia.
+           ++ intros t' k' b' [Heq | Hin']; [injection Heq as _ _ <-; intros _; exact Hl | apply (Hc1 t' k' b' Hin')].
+      * intros (c1 & k & c2 & Hcalls & He & Hl & Hc1).
+        destruct c1 as [|c c1].
+        -- injection Hcalls as <- <- <- <-. exists (mk_event r t0 k0 (DBid b0)).
+           split; [left; reflexivity | split; reflexivity].
+        -- injection Hcalls as <- ->.
+           destruct (proj2 (IH (Some b0) t b)) as [e [Hin [Hd Ht]]].
+           { exists c1, k, c2. repeat split; try assumption.
+             - intros l Hl'. injection Hl' as <-. apply (Hc1 t0 k0 b0); [left; reflexivity | exact Ehead].
+             - intros t' k' b' Hin'. apply (Hc1 t' k' b'). right; exact Hin'. }
+           exists e. split; [right; exact Hin | split; assumption].
+    + (* kept back *)
+      split.
+      * intros [e [[<- | Hin] [Hd Ht]]]; [discriminate Hd|].
+        destruct (proj1 (IH last t b)) as (c1 & k & c2 & -> & He & Hl & Hc1).
+        { exists e. repeat split; assumption. }
+        exists ((t0, k0, RBid b0) :: c1), k, c2. repeat split; try assumption.
+        intros t' k' b' [Heq | Hin']; [|apply (Hc1 t' k' b' Hin')].
+        injection Heq as _ _ <-. intros _. specialize (Hl l0 Hl0). lia.
+      * intros (c1 & k & c2 & Hcalls & He & Hl & Hc1).
+        destruct c1 as [|c c1].
+        -- injection Hcalls as _ _ <- _. specialize (Hl l0 Hl0). lia.
+        -- injection Hcalls as <- ->.
+           destruct (proj2 (IH last t b)) as [e [Hin [Hd Ht]]].
+           { exists c1, k, c2. repeat split; try assumption.
+             intros t' k' b' Hin'. apply (Hc1 t' k' b'). right; exact Hin'. }
+           exists e. split; [right; exact Hin | split; assumption].
+  - destruct (classify_deadline_other r last x) as [Hsnd Hfst].
+    { intros b1 ->. exact Ehead. }
+    rewrite Ec in Hsnd, Hfst. cbn [fst snd] in Hsnd, Hfst. subst last'.
+    split.
+    + intros [e [[<- | Hin] [Hd Ht]]]; [cbn in Hd; exfalso; exact (Hfst b Hd)|].
+      destruct (proj1 (IH last t b)) as (c1 & k & c2 & -> & He & Hl & Hc1).
+      { exists e. repeat split; assumption. }
+      exists ((t0, k0, x) :: c1), k, c2. repeat split; try assumption.
+      intros t' k' b' [Heq | Hin']; [|apply (Hc1 t' k' b' Hin')].
+      injection Heq as _ _ ->. intros He'. rewrite He' in Ehead. discriminate Ehead.
+    + intros (c1 & k & c2 & Hcalls & He & Hl & Hc1).
+      destruct c1 as [|c c1].
+      * injection Hcalls as _ _ ->. rewrite He in Ehead. discriminate Ehead.
+      * injection Hcalls as <- ->.
+        destruct (proj2 (IH last t b)) as [e [Hin [Hd Ht]]].
+        { exists c1, k, c2. repeat split; try assumption.
+          intros t' k' b' Hin'. apply (Hc1 t' k' b'). right; exact Hin'. }
+        exists e. split; [right; exact Hin | split; assumption].
+Qed.
